@@ -123,6 +123,8 @@ type Conn struct {
 	wq       simrt.WaitQ // writers blocked on a full send buffer
 	rdl      time.Time
 	rdlTimer *time.Timer
+	wdl      time.Time
+	wdlTimer *time.Timer
 	blocked  bool
 }
 
@@ -344,27 +346,43 @@ func (c *Conn) Read(b []byte) (int, error) {
 //go:norace
 func (c *Conn) Write(b []byte) (int, error) {
 	simrt.Touch()
+	written := 0
 	for {
 		if c.closed {
-			return 0, &net.OpError{Op: "write", Net: "tcp", Err: errClosed}
+			return written, &net.OpError{Op: "write", Net: "tcp", Err: errClosed}
 		}
 		if c.l.reset {
-			return 0, &net.OpError{Op: "write", Net: "tcp", Err: os.NewSyscallError("write", syscall.ECONNRESET)}
+			return written, &net.OpError{Op: "write", Net: "tcp", Err: os.NewSyscallError("write", syscall.ECONNRESET)}
 		}
 		if c.l.peerGone {
-			return 0, &net.OpError{Op: "write", Net: "tcp", Err: os.NewSyscallError("write", syscall.EPIPE)}
+			return written, &net.OpError{Op: "write", Net: "tcp", Err: os.NewSyscallError("write", syscall.EPIPE)}
 		}
-		if !(c.l.NoRead && c.l.SndBuf > 0 && len(c.l.toPeer) >= c.l.SndBuf) || !simrt.Active() || simrt.Exiting() {
-			break
+		// a peer that does not read leaves room for SndBuf bytes: what fits is taken (a partial
+		// write, as a socket does), the rest waits until the peer reads again, the write deadline
+		// passes, the connection is reset, or this side closes it
+		n := len(b) - written
+		if c.l.NoRead && c.l.SndBuf > 0 && simrt.Active() && !simrt.Exiting() {
+			if room := c.l.SndBuf - len(c.l.toPeer); room < n {
+				n = room
+				if n < 0 {
+					n = 0
+				}
+			}
 		}
-		// the peer's receive window and the local send buffer are full: the write blocks until the
-		// peer reads again, the connection is reset, or this side closes it
+		if n > 0 {
+			simrt.RaceReleaseMerge(unsafe.Pointer(&c.l.ioSync))
+			c.l.toPeer = append(c.l.toPeer, b[written:written+n]...)
+			written += n
+		}
+		if written == len(b) {
+			return written, nil
+		}
+		if !c.wdl.IsZero() && !time.Now().Before(c.wdl) {
+			return written, &net.OpError{Op: "write", Net: "tcp", Err: os.ErrDeadlineExceeded}
+		}
 		c.l.net.Stats.BlockedWrites++
 		simrt.Block(&c.wq, c, "net.Write")
 	}
-	simrt.RaceReleaseMerge(unsafe.Pointer(&c.l.ioSync))
-	c.l.toPeer = append(c.l.toPeer, b...)
-	return len(b), nil
 }
 
 //go:norace
@@ -385,7 +403,10 @@ func (c *Conn) LocalAddr() net.Addr  { return c.l.Local }
 func (c *Conn) RemoteAddr() net.Addr { return c.l.Remote }
 
 //go:norace
-func (c *Conn) SetDeadline(t time.Time) error { return c.SetReadDeadline(t) }
+func (c *Conn) SetDeadline(t time.Time) error {
+	_ = c.SetWriteDeadline(t)
+	return c.SetReadDeadline(t)
+}
 
 // SetReadDeadline: a reader that is blocked re-checks the deadline now (a deadline in the past is
 // how net/http aborts its background read) and again when the deadline arrives.
@@ -408,7 +429,23 @@ func (c *Conn) SetReadDeadline(t time.Time) error {
 	}
 	return nil
 }
-func (c *Conn) SetWriteDeadline(t time.Time) error { return nil }
+func (c *Conn) SetWriteDeadline(t time.Time) error {
+	simrt.Touch()
+	c.wdl = t
+	if c.wdlTimer != nil {
+		c.wdlTimer.Stop()
+		c.wdlTimer = nil
+	}
+	if t.IsZero() {
+		return nil
+	}
+	if d := time.Until(t); d > 0 {
+		c.wdlTimer = time.AfterFunc(d, func() { c.wq.WakeAll() })
+	} else {
+		c.wq.WakeAll()
+	}
+	return nil
+}
 func (c *Conn) Link() *Link                        { return c.l }
 
 // ---------------------------------------------------------------- Listener (SUT side)
@@ -617,7 +654,15 @@ func (l *Link) PendingToSUT() int {
 
 //go:norace
 func (l *Link) PendingToPeer() int {
-	if l.reset || l.NoRead {
+	if l.reset {
+		return 0
+	}
+	if l.NoRead {
+		// nothing is read; that the SUT has closed its side is still made known to the harness peer
+		// (its bookkeeping of what was in flight on the connection), the unread bytes are discarded
+		if l.sutClosed && !l.peerGone {
+			return 1
+		}
 		return 0
 	}
 	n := len(l.toPeer)
@@ -662,7 +707,17 @@ func (l *Link) DeliverToSUT(max int) int {
 //
 //go:norace
 func (l *Link) DeliverToPeer() {
-	if l.reset || l.NoRead {
+	if l.reset {
+		return
+	}
+	if l.NoRead {
+		if l.sutClosed && !l.peerGone {
+			l.toPeer = nil
+			l.peerGone = true
+			if l.Peer != nil {
+				l.Peer.OnClose(l)
+			}
+		}
 		return
 	}
 	if len(l.toPeer) > 0 {
